@@ -1,20 +1,23 @@
-"""Property table for the driver: id -> package, build legs, shard counts, rule text."""
+"""Property table for the driver. Each property package harness/cNN carries its own metadata in
+harness/cNN/check.json:
+  {"property": "C01", "ready": true, "shards": 16, "rule": "...", "assumptions": ["..."],
+   "legs": [{"name": "default", "tags": "verif"}, {"name": "legacy", "tags": "verif,protolegacy"}],
+   "peers": [...], "timeout": {"quick": 600, "thorough": 7200}, "technique": "...", "level_text": "...", "level_note": "..."}
+Only entries with "ready": true are claimed in MANIFEST.json."""
+import glob, json, os
 
-def leg(name="default", tags="verif", **kw):
-    d = dict(name=name, tags=tags)
-    d.update(kw)
-    return d
+ROOT = os.path.dirname(os.path.abspath(__file__))
+CHECKS = {}
+for f in sorted(glob.glob(os.path.join(ROOT, "harness", "c[0-9][0-9]", "check.json"))):
+    cfg = json.load(open(f))
+    if not cfg.get("ready"):
+        continue
+    cfg.setdefault("pkg", os.path.basename(os.path.dirname(f)))
+    cfg.setdefault("shards", 16)
+    cfg.setdefault("rule", "")
+    CHECKS[cfg["property"]] = cfg
 
-CHECKS = {
-    "C01": dict(pkg="c01", shards=16,
-                rule="protowire primitives vs an independent reference encoder (bit-length/boundary enumeration + rapid draws)",
-                assumptions=["reference varint/zigzag/fixed encoders written from the encoding spec; math/big; encoding/binary"]),
-    "C03": dict(pkg="c03", shards=16,
-                rule="binary round trip on the abstract message model over every linked message type",
-                assumptions=["harness message model + reference wire encoder (checked against protowire by C01/C02)", "protoreflect Set/Get/Range used to build and read messages"]),
-}
-
-# properties deliberately not claimed, with reasons (everything else missing from CHECKS is "not built yet")
+# properties deliberately not claimed, with reasons (anything else missing from CHECKS is "not built yet")
 NOT_APPLICABLE = {}
 # build-tag-guarded hook commits in /repo
 HOOK_COMMITS = []
